@@ -2684,9 +2684,17 @@ func (s *swamp) CloneAndDeleteMatchingTreasures(beaconType BeaconType, order Bea
 	// cap-filter (e.g. a sibling claim-in-place flow on the same swamp),
 	// concurrent callers must still serialise to avoid double-counting
 	// budgets.
+	capLocked := false
+	unlockCap := func() {
+		if capLocked {
+			capLocked = false
+			s.capMu.Unlock()
+		}
+	}
 	if capPredicate != nil {
 		s.capMu.Lock()
-		defer s.capMu.Unlock()
+		capLocked = true
+		defer unlockCap()
 	}
 
 	atomic.StoreInt64(&s.lastInteractionTime, time.Now().UnixNano())
@@ -2740,6 +2748,10 @@ func (s *swamp) CloneAndDeleteMatchingTreasures(beaconType BeaconType, order Bea
 
 	// Auto-destroy on empty, mirroring CloneAndDeleteExpiredTreasures.
 	if s.beaconKey.Count() == 0 {
+		// Destroy waits until every active vigil has ended. Another cap-bearing
+		// request on this swamp that has already begun its vigil may be waiting
+		// for capMu: give the mutex back first, or both wait for each other forever.
+		unlockCap()
 		s.CeaseVigil()
 		s.Destroy()
 	}
